@@ -189,6 +189,9 @@ class Stream(ModelMixin["Stream"], Base):
         abs_filename = upload_folder / filename
         logging.debug('destination file "%s"', abs_filename)
         mf = MediaFile.get(name=filename.stem)
+        if mf and mf.stream_pk != self.pk:
+            raise ValueError(
+                f'File name "{filename.stem}" is already used by stream {mf.stream.directory}')
         if mf:
             mf.delete_file()
             mf.delete()
